@@ -133,7 +133,11 @@ where
             }
             Call::Page(i) => {
                 let p = file.get_page(*i)?;
-                Ok(format!("page:{}:{:?}", p.get_ref().get_inner().id, p.media_box().ok().map(|b| (b.right.to_bits(), b.top.to_bits()))))
+                let res = match p.resources() {
+                    Ok(r) => format!("fonts={},xobjects={},gs={}", r.fonts.len(), r.xobjects.len(), r.graphics_states.len()),
+                    Err(e) => format!("err:{}", errs::root_kind(&e)),
+                };
+                Ok(format!("page:{}:{:?}:{}", p.get_ref().get_inner().id, p.media_box().ok().map(|b| (b.right.to_bits(), b.top.to_bits())), res))
             }
         }
     });
@@ -373,6 +377,28 @@ pub fn run(ctx: &Ctx) {
                     });
                 }
             }
+        }
+    }
+    // references with a stale generation next to correct ones to the same object (the library ignores the generation)
+    {
+        use crate::engine::val::Val;
+        use crate::engine::writer::Writer;
+        let mut w = Writer::new(b"", "1.4");
+        let page = |res_gen: u64| Val::dict(vec![("Type", Val::name("Page")), ("Parent", Val::Ref(2, 0)), ("MediaBox", Val::Array(vec![Val::Int(0), Val::Int(0), Val::Int(200), Val::Int(300)])), ("Resources", Val::Ref(8, res_gen))]);
+        w.obj(1, 0, &Val::dict(vec![("Type", Val::name("Catalog")), ("Pages", Val::Ref(2, 0))]));
+        w.obj(2, 0, &Val::dict(vec![("Type", Val::name("Pages")), ("Kids", Val::Array(vec![Val::Ref(3, 0), Val::Ref(4, 0), Val::Ref(5, 7)])), ("Count", Val::Int(3))]));
+        w.obj(3, 0, &page(0));
+        w.obj(4, 0, &page(1));
+        w.obj(5, 0, &page(0));
+        w.obj(8, 0, &Val::dict(vec![("Font", Val::dict(vec![("F1", Val::dict(vec![("Type", Val::name("Font")), ("Subtype", Val::name("Type1")), ("BaseFont", Val::name("Helvetica"))]))]))]));
+        w.free(0, 0, 65535);
+        w.xref_table(9, &[(Bytes::from("Root"), Val::Ref(1, 0))], false);
+        let file = w.finish();
+        for calls in [vec![Call::Page(0), Call::Page(1), Call::Page(2)], vec![Call::Page(1), Call::Page(0)], vec![Call::Page(2), Call::Page(1)], vec![Call::GetDictionary(8), Call::Page(1)]] {
+            ctx.run_one("probe-stale-generation-references", "generated", |info| {
+                info.nontrivial(true);
+                check_rendered(&Rendered { name: "stale-generation".into(), file: Bytes(file.clone()), password: Bytes(vec![]), calls: calls.clone() })
+            });
         }
     }
     // a later section gives the number of the first section's cross-reference stream to an ordinary stream
